@@ -94,6 +94,24 @@ func (fl *Flow) ObjAt(in ssa.Instruction, ptr ssa.Value) Label {
 	return fl.Of(ptr)
 }
 
+// CellAt returns the label of the local cell (alloc, path) as seen just before
+// instruction in; found=false when no store to the cell (or an enclosing one)
+// reaches that point (the cell still holds its zero value).
+func (fl *Flow) CellAt(in ssa.Instruction, al *ssa.Alloc, path string) (Label, bool) {
+	st := fl.at[in]
+	for p := path; ; p = parentPath(p) {
+		if v, ok := st[cellKey{al, p}]; ok {
+			return v, true
+		}
+		if p == "" {
+			return 0, false
+		}
+	}
+}
+
+// IsString reports whether t is a string type.
+func IsString(t types.Type) bool { return isString(t) }
+
 func hasPrefix(s, p string) bool { return len(s) >= len(p) && s[:len(p)] == p }
 
 // RunFlow analyses f to a fixpoint.
@@ -152,7 +170,7 @@ func RunFlow(f *ssa.Function, spec FlowSpec) *Flow {
 							// that a later store to one field replaces exactly that part
 							for i := 0; i < stt.NumFields(); i++ {
 								fl0 := l
-								if NoRefs(stt.Field(i).Type()) {
+								if fl.spec.Irrelevant != nil && fl.spec.Irrelevant(stt.Field(i).Type()) {
 									fl0 = 0
 								}
 								st[cellKey{al, path + "." + stt.Field(i).Name()}] = fl0
